@@ -10,6 +10,7 @@ import (
 	"fmt"
 	"os"
 	"runtime"
+	"runtime/debug"
 	"strings"
 	"sync"
 	"sync/atomic"
@@ -33,6 +34,40 @@ var pgsimAssumption = "pgsim: hand-written in-process model of the Postgres subs
 func skipGoose(schema, table string) bool { return table == "goose_db_version" }
 
 func dumpOf(pg *pgsim.DB) string { return pg.DumpFiltered(false, skipGoose) }
+
+// bootLedgers is lx.Boot with one twist: every ledger is created from a freshly attached
+// world (a new database session). Bucket migration 17 creates a session-lifetime
+// temporary table (`create temporary table transactions_ids`, never dropped), so
+// migrating a second bucket over the same pooled connection fails with 42P07
+// "relation already exists" — on pgsim as it would on a server. A new session per
+// ledger is the equivalent of the pool handing out another connection.
+func bootLedgers(ctx context.Context, ledgers []lx.LedgerSpec) (*pgsim.DB, error) {
+	w, err := world.NewSystem(ctx)
+	if err != nil {
+		return nil, err
+	}
+	pg := w.PG
+	w.Close()
+	for _, l := range ledgers {
+		wl := world.Attach(pg)
+		conf := ledger.Configuration{Bucket: l.Bucket}
+		if l.Features != nil {
+			conf.Features = map[string]string{}
+			for k, v := range l.Features {
+				conf.Features[k] = v
+			}
+		}
+		err := wl.CreateLedger(ctx, l.Name, conf)
+		wl.Close()
+		if err != nil {
+			return nil, fmt.Errorf("create ledger %s: %w", l.Name, err)
+		}
+	}
+	if len(pg.SkippedInMigration) > 0 {
+		return nil, fmt.Errorf("pgsim skipped migration statements: %v", pg.SkippedInMigration)
+	}
+	return pg, nil
+}
 
 // exportLogs runs the real Export and collects the stream.
 func exportLogs(ctx context.Context, c ledgercontroller.Controller) ([]ledger.Log, error) {
@@ -239,7 +274,7 @@ func runWrite(ctx context.Context, c ledgercontroller.Controller, path string, o
 	case pathSingle:
 		out := writeResult{Wanted: len(ops)}
 		for _, op := range ops {
-			o := lx.Apply(ctx, c, op)
+			o := applyRecover(ctx, c, op)
 			if o.Class == "ENGINE" {
 				return out, fmt.Errorf("engine error in %s: %v", op, o.Err)
 			}
@@ -261,6 +296,18 @@ func runWrite(ctx context.Context, c ledgercontroller.Controller, path string, o
 		return runBulk(ctx, c, true, ops)
 	}
 	return writeResult{}, fmt.Errorf("unknown path %q", path)
+}
+
+// applyRecover is lx.Apply for requests whose failure the oracle judges: a panic of the
+// code under test while serving the request is a failed request (the HTTP layer would
+// answer 500), not a crash of the check.
+func applyRecover(ctx context.Context, c ledgercontroller.Controller, op lx.Op) (out lx.Outcome) {
+	defer func() {
+		if p := recover(); p != nil {
+			out = lx.Outcome{Err: fmt.Errorf("panic while serving the request: %v", p), Class: "panic"}
+		}
+	}()
+	return lx.Apply(ctx, c, op)
 }
 
 func engineIn(w writeResult) error {
@@ -296,7 +343,14 @@ func parallel(r *ev.Run, n int, fn func(i int)) bool {
 					stopped.Store(true)
 					return
 				}
-				fn(i)
+				func() {
+					defer func() {
+						if p := recover(); p != nil {
+							r.EngineError(fmt.Sprintf("panic in case %d: %v\n%s", i, p, debug.Stack()))
+						}
+					}()
+					fn(i)
+				}()
 			}
 		}()
 	}
